@@ -1,4 +1,7 @@
+import os
 import struct
+import subprocess
+import sys
 
 import gens
 from props import PROPS, budget
@@ -267,7 +270,15 @@ def parse_hops(s):
 SLACK = 200  # ms: ops may run up to 150 ms late (the driver re-runs / reports the case otherwise)
 
 
+_LAST = {}
+
+
 def c08_hist_oracle(line, res):
+    _LAST["cachehist"] = line
+    return c08_hist_oracle1(line, res)
+
+
+def c08_hist_oracle1(line, res):
     if res.startswith("HARNESS-ERROR"):
         return None
     f = gens.fields(line)
@@ -325,6 +336,41 @@ def c08_hist_compare(ir, mr):
             continue
         return False
     return True
+
+
+def retrying_compare(kind, oracle1):
+    """Real-clock kinds: otter's 1 s ticker goroutine can be starved on a loaded machine; its clock then lags by more
+    than the model assumes and an entry expires EARLY (always allowed by the property, but not what the model, run
+    with an ideal ticker, predicts). A mismatching case whose result passes the property oracle is therefore re-run
+    (implementation side only) up to twice and accepted when a re-run matches the model. A result that fails the
+    property oracle is never re-run: the oracle is evaluated on the first result by bin/check."""
+    def cmp(ir, mr):
+        if c08_hist_compare(ir, mr):
+            return True
+        line = _LAST.get(kind)
+        if not line or ir.startswith("HARNESS-ERROR"):
+            return False
+        import vlib
+        for attempt in range(2):
+            try:
+                p = subprocess.run([os.path.join(vlib.BUILD, "implrun"), kind], input=line + "\n", text=True,
+                                   stdout=subprocess.PIPE, stderr=subprocess.DEVNULL, timeout=120)
+            except Exception:
+                return False
+            res = None
+            for l in p.stdout.split("\n"):
+                if l.startswith("R "):
+                    res = l.split(" ", 2)[2] if l.count(" ") >= 2 else ""
+            if res is None:
+                return False
+            if oracle1(line, res) is not None:
+                return False
+            if c08_hist_compare(res, mr):
+                print("C08 %s: case %s matched the model on re-run %d (first result: %s)" % (
+                    kind, line.split(" ")[0], attempt + 1, ir), file=sys.stderr)
+                return True
+        return False
+    return cmp
 
 
 def hist_ok_times(ops):
@@ -444,6 +490,11 @@ def parse_qops(s):
 
 
 def c08_router_oracle(line, res):
+    _LAST["routerhist"] = line
+    return c08_router_oracle1(line, res)
+
+
+def c08_router_oracle1(line, res):
     if res.startswith("HARNESS-ERROR"):
         return None
     f = gens.fields(line)
@@ -561,10 +612,12 @@ PROPS["C08"] = dict(
         dict(name="ttl", gen=c08_ttl_gen, oracle=c08_ttl_oracle, respec=c08_ttl_respec, respec_kind="ttlspec",
              classify=c08_ttl_classify, shards=8,
              nontrivial=lambda l, r: r.startswith("ttls=") or r.startswith("min="), timeout=600),
-        dict(name="cachehist", gen=c08_hist_gen, oracle=c08_hist_oracle, compare=c08_hist_compare,
+        dict(name="cachehist", gen=c08_hist_gen, oracle=c08_hist_oracle,
+             compare=retrying_compare("cachehist", c08_hist_oracle1),
              classify=c08_hist_classify, shards=4,
              nontrivial=lambda l, r: "H" in r or "M" in r, timeout=600),
-        dict(name="routerhist", gen=c08_router_gen, oracle=c08_router_oracle, compare=c08_hist_compare,
+        dict(name="routerhist", gen=c08_router_gen, oracle=c08_router_oracle,
+             compare=retrying_compare("routerhist", c08_router_oracle1),
              classify=c08_router_classify, shards=4,
              nontrivial=lambda l, r: r.startswith("U") or r.startswith("C"), timeout=600),
     ],
@@ -582,7 +635,8 @@ PROPS["C08"] = dict(
          "handle_req_store (only miss + reply stores). distinct = distinct case line",
     assumptions=["otter clock model (see trusted base); cachehist ops are scheduled >= 200 ms away from whole-second "
                  "distances to the stores they depend on, and a case whose ops ran > 150 ms late is re-run once, then "
-                 "reported as a harness note, never as an alarm",
+                 "reported as a harness note, never as an alarm; a real-clock case that passes the property oracle but "
+                 "differs from the model (early expiry when otter's ticker goroutine is starved) is re-run up to twice",
                  "fetch instant of the property = cacheEntry.storedTime (time.Now() inside cacheCtl.Store)"],
     trusted=C08_TRUST,
     level_note="C08 proof: TTL ageing, lifetime table (no overflow up to 2^32-1), never-cached and set-if-absent "
